@@ -140,9 +140,21 @@ def main():
     if record:
         (np.random.choice, np.random.randint, np.random.rand, np.random.random_sample,
          np.random.poisson) = w_choice, w_randint, w_rand, w_rs, w_poisson
+    prior = params.pop("_prior", None)
     out = dict(ok=False)
     try:
-        sc = nasim.generate_scenario(**params)
+        if prior:
+            # one ScenarioGenerator object used several times: earlier calls must not leak into the last one
+            from nasim.scenarios.generator import ScenarioGenerator
+            g = ScenarioGenerator()
+            for q in prior:
+                if q.get("address_space_bounds") is not None:
+                    q["address_space_bounds"] = tuple(q["address_space_bounds"])
+                g.generate(**q)
+                del LOG[:]
+            sc = g.generate(**params)
+        else:
+            sc = nasim.generate_scenario(**params)
         out.update(ok=True, log=list(LOG), fingerprint=fingerprint(sc), hashseed=os.environ.get("PYTHONHASHSEED"))
         try:
             out["lines"] = C.scenario_lines(sc)
